@@ -10,6 +10,9 @@
 //!             digit i += 2, digit i+1 -= 1 (non-boolean digits, identity preserved);
 //!             coefficient i += X^(j-i), coefficient j -= 1 (mass moved between extension
 //!             coefficients: coefficient i is no longer a base-field element).
+//!             a coefficient that is a non-base extension element, the others compensating.
+//! Coefficient sites: BabyBear D=4 "alu", KoalaBear D=4 "npo"/"npo_coeff" (this file) and
+//! Goldilocks D=2 / KoalaBear D=5 / BabyBear D=4+recompose in every mode (`coeffx.rs`).
 //! Verdict: violation ⇔ accepted ∧ witness not canonical.
 
 use std::sync::atomic::{AtomicU64, Ordering};
@@ -28,6 +31,8 @@ use p3_koala_bear::KoalaBear;
 use vpcore::rayon::prelude::*;
 use vpcore::serde_json::{Value, json};
 use vpcore::{Ctx, Histo, Report, finish, quiet_catch};
+
+mod coeffx;
 
 type BB = BabyBear;
 type KB = KoalaBear;
@@ -161,6 +166,8 @@ enum Work {
     /// the same value decomposed twice in one circuit (widths n1 then n2, honest hints): the
     /// claimed n2-bit digits are public
     BitsTwice(usize, usize, u64, Vec<u64>),
+    /// coefficient decomposition over Goldilocks D=2 / KoalaBear D=5 / BabyBear D=4+recompose
+    CoeffX(coeffx::CoeffX),
 }
 
 struct Case {
@@ -351,8 +358,34 @@ fn coeff_cases(mode: &'static str, out: &mut Vec<Case>) {
     }
 }
 
+/// The coefficient sites over the other field configurations (see `coeffx.rs`).
+fn coeffx_cases(thorough: bool, out: &mut Vec<Case>) {
+    use coeffx::FieldCfg::*;
+    // Per configuration: the three modes with the coefficient as first ALU operand (the ALU port
+    // takes the creator role for the hint output), and the recompose/coeff mode with the
+    // coefficients consumed only as pure readers (`read_only_b`): there the recompose/coeff row is
+    // the sole creator of each coefficient on the bus — the live detector of this family.
+    // (Plain `npo` + `read_only_b` is not a site: no table creates the hint outputs there and
+    // even the canonical proof is refused; BabyBear D=4 `alu` is the original "alu" site.)
+    let mut sites: Vec<(coeffx::FieldCfg, &'static str, &'static str)> = vec![];
+    for cfg in [Gl2, Kb5, Bb4] {
+        if cfg != Bb4 {
+            sites.push((cfg, "alu", "read_as_a"));
+        }
+        sites.push((cfg, "npo", "read_as_a"));
+        sites.push((cfg, "npo_coeff", "read_as_a"));
+        sites.push((cfg, "npo_coeff", "read_only_b"));
+    }
+    for (cfg, mode, consumer) in sites {
+        for (w, canonical) in coeffx::plan(cfg, mode, consumer, thorough) {
+            out.push(Case { site: w.site(), class: w.alt.class(), detail: format!("x={:?} {}", w.x, w.alt.detail()), canonical, work: Work::CoeffX(w) });
+        }
+    }
+}
+
 fn run_case(w: &Work) -> Outcome {
     match w {
+        Work::CoeffX(c) => coeffx::run(c),
         Work::BitsTwice(n1, n2, xv, digits) => {
             let mut b = CircuitBuilder::<BB>::new();
             let x = b.public_input();
@@ -563,6 +596,17 @@ fn main() {
     for mode in ["alu", "npo", "npo_coeff"] {
         coeff_cases(mode, &mut cases);
     }
+    coeffx_cases(!ctx.quick() || ctx.replay.is_some(), &mut cases);
+    // --replay <file>: re-execute exactly the stored case (site, class, detail)
+    if let Some(path) = &ctx.replay {
+        let r = vpcore::load_replay(path);
+        let get = |k: &str| r.get(k).and_then(|v| v.as_str()).unwrap_or("").to_string();
+        let (site, class, detail) = (get("site"), get("class"), get("detail"));
+        cases.retain(|c| c.site == site && c.class == class && c.detail == detail);
+        if cases.is_empty() {
+            vpcore::machinery_error(&format!("replay case not in the enumeration: {site} / {class} / {detail}"));
+        }
+    }
     if let Some(f) = ctx.opt("site") {
         cases.retain(|c| c.site.contains(f));
     }
@@ -616,7 +660,7 @@ fn main() {
     let cov = json!({
         "evaluations": d,
         "distinct_nontrivial": reached.load(Ordering::Relaxed),
-        "rule": "a case = (site, value, alternative witness); all alternatives of the three classes are enumerated for every value of the alphabet; non-trivial = non-canonical witness that the runner accepts (the recomposition identity holds) and therefore reaches prover+verifier",
+        "rule": "a case = (site, value, alternative witness); all alternatives of the three classes are enumerated for every value of the alphabet; non-trivial = non-canonical witness that reaches prover+verifier: either the runner accepts it (the recomposition identity holds) or, where the runner refuses, as forged traces",
         "samples": *samples.lock().unwrap(),
         "cases_planned": total,
         "exhaustive": d == total,
